@@ -1,16 +1,24 @@
 /* std::string model: {data,size}. TRUSTED. */
 #ifndef VERIF_STR_H
 #define VERIF_STR_H
-typedef struct str_t { int8_t* data; size_t size; } str_t;
+/* tag: ghost identity of the literal(s) a string was built from (0 = none); tag' = tag * 64 + literal id */
+typedef struct str_t { int8_t* data; size_t size; uint64_t tag; } str_t;
 #if defined(VERIF_CBMC) && defined(VERIF_ABSTRACT)
 static void str_assign_n(str_t* s, const int8_t* p, size_t n) { VERIF_ASSERT(n == 0 || __CPROVER_r_ok(p, n), "model: string::assign source readable"); s->data = (int8_t*)malloc(n ? n : 1); VERIF_ASSUME(s->data != 0); s->size = n; }
-static str_t str_copy(const str_t* a) { str_t r; r.data = (int8_t*)malloc(a->size ? a->size : 1); VERIF_ASSUME(r.data != 0); r.size = a->size; return r; }
+static str_t str_copy(const str_t* a) { str_t r; r.data = (int8_t*)malloc(a->size ? a->size : 1); VERIF_ASSUME(r.data != 0); r.size = a->size; r.tag = a->tag; return r; }
 static _Bool str_eq(const str_t* a, const str_t* b) { if (a->size != b->size) return 0; return nondet_bool(); }
 #else
 static void str_assign_n(str_t* s, const int8_t* p, size_t n) { s->data = (int8_t*)verif_alloc(n, 1); for (size_t i = 0; i < n; ++i) VERIF_MODEL_LOOP s->data[i] = p[i]; s->size = n; }
-static str_t str_copy(const str_t* a) { str_t r; r.data = (int8_t*)verif_alloc(a->size, 1); for (size_t i = 0; i < a->size; ++i) VERIF_MODEL_LOOP r.data[i] = a->data[i]; r.size = a->size; return r; }
+static str_t str_copy(const str_t* a) { str_t r; r.data = (int8_t*)verif_alloc(a->size, 1); for (size_t i = 0; i < a->size; ++i) VERIF_MODEL_LOOP r.data[i] = a->data[i]; r.size = a->size; r.tag = a->tag; return r; }
 static _Bool str_eq(const str_t* a, const str_t* b) { if (a->size != b->size) return 0; for (size_t i = 0; i < a->size; ++i) VERIF_MODEL_LOOP if (a->data[i] != b->data[i]) return 0; return 1; }
 #endif
 static int8_t* str_index(const str_t* s, size_t i) { VERIF_ASSERT(i <= s->size, "check: string index in range"); return &s->data[i]; }
-#define str_from_lit(lit) ((str_t){ (int8_t*)(lit), sizeof(lit) - 1 })
+#define str_from_lit(lit, id) ((str_t){ (int8_t*)(lit), sizeof(lit) - 1, (id) })
+#if defined(VERIF_CBMC) && defined(VERIF_ABSTRACT)
+static str_t str_concat_lit_n(const str_t* a, const char* lit, size_t n, uint64_t id) { str_t r; r.size = a->size + n; r.data = (int8_t*)malloc(r.size ? r.size : 1); VERIF_ASSUME(r.data != 0); r.tag = a->tag * 64 + id; return r; }
+#else
+static str_t str_concat_lit_n(const str_t* a, const char* lit, size_t n, uint64_t id) { str_t r; r.size = a->size + n; r.data = (int8_t*)verif_alloc(r.size, 1);
+  for (size_t i = 0; i < a->size; ++i) VERIF_MODEL_LOOP { r.data[i] = a->data[i]; } for (size_t i = 0; i < n; ++i) VERIF_MODEL_LOOP { r.data[a->size + i] = lit[i]; } r.tag = a->tag * 64 + id; return r; }
+#endif
+#define str_concat_lit(a, lit, id) str_concat_lit_n((a), (lit), sizeof(lit) - 1, (id))
 #endif
